@@ -112,16 +112,16 @@ def run(tier, replay):
     if replay:
         return _replay(ctx, pf, wd, replay)
 
-    pool = cf.ThreadPoolExecutor(max_workers=4)
+    pool = cf.ThreadPoolExecutor(max_workers=10)
 
-    # ---- 1./2. TLC on the models, generation: all started now, consumed in order ----------------------------
+    # ---- 1./2. TLC on the models, generation: all started now, consumed as the pipeline needs them -----------------
     f_mc = pool.submit(run_tlc, "MC_Mutants.tla", "MC_Mutants_thorough.cfg" if thorough else "MC_Mutants_quick.cfg", D,
                        workers=6, coverage=True, timeout=3000, work_id="c03-mc", heap="4g")
     gens = ["Gen_Mutants_thoroughA.cfg", "Gen_Mutants_thoroughB.cfg"] if thorough else ["Gen_Mutants_quick.cfg"]
     f_gen = [pool.submit(run_tlc, "MC_Mutants.tla", g, D, workers=4, timeout=3000, work_id="c03-gen%d" % i, heap="4g")
              for i, g in enumerate(gens)]
 
-    def small_runs():
+    def sup_runs():
         out = []
         out.append(("sup", run_tlc("ParseSup.tla", "MC_ParseSup_thorough.cfg" if thorough else "MC_ParseSup_quick.cfg", D, workers=4,
                                    coverage=True, timeout=3000, work_id="c03-sup", heap="3g")))
@@ -130,11 +130,12 @@ def run(tier, replay):
             out.append(("sup-sens:" + cfg, run_tlc("ParseSup.tla", cfg, D, workers=1, timeout=900, work_id="c03-sup", heap="2g")))
         for cfg, bug in SUP_BUGS:
             out.append(("sup-bug:" + bug, run_tlc("ParseSup.tla", cfg, D, workers=1, timeout=900, work_id="c03-sup", heap="2g")))
-        for d in DEVS:
-            out.append(("dev:" + d, run_tlc("MC_Mutants.tla", "MC_Mutants_dev_%s.cfg" % d, D, workers=1, timeout=1800,
-                                            work_id="c03-dev", heap="3g")))
         return out
-    f_small = pool.submit(small_runs)
+
+    def dev_runs(devs, tag):
+        return [("dev:" + d, run_tlc("MC_Mutants.tla", "MC_Mutants_dev_%s.cfg" % d, D, workers=1, timeout=1800,
+                                     work_id="c03-dev" + tag, heap="3g")) for d in devs]
+    f_small = [pool.submit(sup_runs), pool.submit(dev_runs, DEVS[0::2], "a"), pool.submit(dev_runs, DEVS[1::2], "b")]
 
     # ---- generation results -> cases file ----------------------------------------------------------------------
     lines = []
@@ -151,51 +152,38 @@ def run(tier, replay):
         lines += [_canon(x) for x in r.prints]
         tlc_inputs += r.distinct
     lines.sort()                      # TLC ran with several workers: fix the order so that input ids are reproducible
-
-    witnesses = {}
-    for name, r in f_small.result():
-        if name == "sup":
-            ctx.add_tlc("ParseSup: supervisor/worker protocol, all behaviours, Bug={}", r)
-            ctx.require_tlc_ok("MC_ParseSup", r)
-            ctx.require_cover("MC_ParseSup", r, SUP_ACTIONS)
-        elif name == "sup-ideal":
-            ctx.add_tlc("ParseSup: ideal parsers (ok/err only) => log is total", r)
-            ctx.require_tlc_ok("MC_ParseSup_ideal", r)
-        elif name.startswith("sup-sens:"):
-            ctx.add_tlc("sensitivity: %s must violate AllTotal" % name[9:], r)
-            if r.violation != "invariant" or r.violated_name != "AllTotal":
-                raise vlib.ToolError("model lost sensitivity: %s no longer violates AllTotal" % name)
-        elif name.startswith("sup-bug:"):
-            ctx.add_tlc("sensitivity: supervisor bug %s must be caught" % name[8:], r)
-            if r.violation is None:
-                raise vlib.ToolError("model lost sensitivity: supervisor bug %s is no longer caught" % name[8:])
-        elif name.startswith("dev:"):
-            d = name[4:]
-            ctx.add_tlc("sensitivity: Dev={%s} must violate ParseTotal inside the families" % d, r)
-            w = [x for x in r.prints if isinstance(x, dict) and x.get("fam") == "witness"]
-            if r.violation != "invariant" or r.violated_name != "ParseTotalW" or not w:
-                raise vlib.ToolError("model lost sensitivity: Dev={%s} no longer violates ParseTotal (families vacuous for it)" % d)
-            w = w[0]
-            witnesses[d] = w
-            lines.append(_canon({"k": "in", "p": w["p"], "fam": "witness-" + d, "len": w["len"], "b": w["b"]}))
-
-    r = f_mc.result()
-    ctx.add_tlc("Mutants: families + Parse action, Dev={} (ParseTotal)", r)
-    ctx.require_tlc_ok("MC_Mutants", r)
-    ctx.require_cover("MC_Mutants", r, MUT_ACTIONS)
-
     cases_path = os.path.join(wd, "cases.ndjson")
     with open(cases_path, "w") as f:
         f.write("\n".join(lines))
         f.write("\n")
     del lines
 
-    # ---- 3. the real parsers, in isolated workers ---------------------------------------------------------------
+    # ---- 3. the real parsers, in isolated workers (threaded build and, for the request parser, the tokio build) -----
     shards = 16 if thorough else 8
     extra = ["--random", "300000" if thorough else "30000", "--random-maxlen", "4096" if thorough else "512",
              "--deep", "1000,3000,20000,200000", "--big", "--rlimit-mb", "1024", "--stack-kib", "2048", "--watchdog-ms", "5000"]
     prefix = os.path.join(wd, "log")
-    s = _run_harness(pf, cases_path, prefix, shards, extra)
+    tk_bindir = build_harness(["parsefuzz"], tokio=True)
+    tk_prefix = os.path.join(wd, "log.tokio")
+    tk_shards = 4
+    f_main = pool.submit(_run_harness, pf, cases_path, prefix, shards, extra)
+    f_tk = pool.submit(_run_harness, pf, cases_path, tk_prefix, tk_shards,
+                       extra + ["--worker-exe", os.path.join(tk_bindir, "parsefuzz"), "--only-parser", "req", "--as-parser", "reqtk"])
+
+    # 5b (started early, it only needs the binary): the observation mechanism observes every kind of misbehaviour
+    def mechanism_selftest():
+        seq = "opoaesomoMohoe"     # ok panic ok abort err stack ok oom ok over-bound ok hang ok err
+        st_cases = os.path.join(wd, "selftest-cases.ndjson")
+        vlib.write_lines(st_cases, [{"k": "in", "p": "selftest", "fam": "selftest", "b": [ord(c), 1, 2]} for c in seq])
+        st = _run_harness(pf, st_cases, os.path.join(wd, "selftest-log"), 1, ["--watchdog-ms", "300"])
+        stl = os.path.join(wd, "selftest-log.0.ndjson")
+        r, verdict = _validate_log(stl, "st2")
+        os.remove(stl)
+        os.remove(st_cases)
+        return st, r, verdict
+    f_mech = pool.submit(mechanism_selftest)
+
+    s = f_main.result()
     if s["records"] != s["items"]:
         raise vlib.ToolError("harness logged %d records for %d (input, delivery) items" % (s["records"], s["items"]))
     hexes = {(r["id"], r["d"]): r.get("hex") for r in s["not_total"]}
@@ -209,11 +197,42 @@ def run(tier, replay):
     for x in s["samples"]:
         ctx.sample(x)
 
-    # ---- 4. TLC judges the outcome log ---------------------------------------------------------------------------
+    # ---- 4. TLC judges the outcome logs ---------------------------------------------------------------------------
     logs = [("%s.%d.ndjson" % (prefix, i)) for i in range(shards)]
     futs = [pool.submit(_validate_log, lp, str(i)) for i, lp in enumerate(logs)]
+
+    # 5a. self-test of the binding: corrupted logs must be rejected (base: clean records of the first log, renumbered)
+    recs = []
+    with open(logs[0]) as f:
+        for x in f:
+            r0 = json.loads(x)
+            if r0["o"] in ("ok", "err") and r0["kib"] <= r0["len"] + 65536:
+                r0.update(n=len(recs), g=0, rt=0)
+                recs.append(r0)
+                if len(recs) == 400:
+                    break
+    if len(recs) < 400:
+        raise vlib.ToolError("not enough records for the binding self-test")
+    tests = []
+    a = [dict(x) for x in recs]
+    a[37]["o"] = "panic"; a[37]["cls"] = "index_oob"; a[37]["file"] = "humphrey/src/http/request.rs"
+    tests.append(("flipped-outcome", a, lambda v: v["nrejected"] == 1 and v["rejected"][0]["idx"] == 38 and not v["rejected"][0]["expl"]))
+    b = [dict(x) for x in recs]
+    b[120]["kib"] = b[120]["len"] + 65536 + 1
+    tests.append(("inflated-peak", b, lambda v: v["nrejected"] == 1 and v["rejected"][0]["idx"] == 121))
+    c = [dict(x) for x in recs]
+    del c[200]
+    tests.append(("dropped-record", c, lambda v: v["nrejected"] == 0 and len(v["shape"]) >= 1 and v["shape"][0]["idx"] == 201))
+    d = [dict(x) for x in recs]
+    d[10]["o"] = "abort"; d[10]["src"] = "sup"       # a death without a restart after it
+    tests.append(("death-without-restart", d, lambda v: v["nrejected"] == 1 and len(v["shape"]) >= 1))
+    st_futs = []
+    for name, rr, ok in tests:
+        pth = os.path.join(wd, "selftest-%s.ndjson" % name)
+        vlib.write_lines(pth, rr)
+        st_futs.append((name, pth, ok, pool.submit(_validate_log, pth, "st-" + name)))
+
     validated = 0
-    first_log = None
     for lp, f in zip(logs, futs):
         r, verdict = f.result()
         n = _count_lines(lp)
@@ -223,76 +242,99 @@ def run(tier, replay):
         ctx.add_tlc("trace validation of %s (%d records)" % (os.path.basename(lp), n), r)
         if verdict is not None:
             _route_rejected(ctx, verdict, os.path.basename(lp), hexes)
-        if first_log is None and n > 50:
-            first_log = lp
     if validated != s["records"]:
         raise vlib.ToolError("validated %d records, harness wrote %d" % (validated, s["records"]))
-    ctx.cov["traces_validated_against_impl"] = validated
 
-    # witnesses of the deviations on the real code (information; they are ordinary inputs of the run above)
+    # ---- 4b. the tokio copy of the request parser: same inputs, served by the harness-tokio worker ----------------------
+    tk = f_tk.result()
+    if tk["records"] != tk["items"] or tk["records"] == 0:
+        raise vlib.ToolError("tokio twin logged %d records for %d items" % (tk["records"], tk["items"]))
+    tk_logs = ["%s.%d.ndjson" % (tk_prefix, i) for i in range(tk_shards)]
+    hexes.update({(r["id"], r["d"]): r.get("hex") for r in tk["not_total"]})
+    for lp, f in zip(tk_logs, [pool.submit(_validate_log, lp, "tk%d" % i) for i, lp in enumerate(tk_logs)]):
+        r, verdict = f.result()
+        n = _count_lines(lp)
+        if r.distinct != n + 1:
+            raise vlib.ToolError("TLC consumed %d of %d records of %s" % (r.distinct - 1, n, lp))
+        validated += n
+        ctx.add_tlc("trace validation of %s (tokio request parser, %d records)" % (os.path.basename(lp), n), r)
+        if verdict is not None:
+            _route_rejected(ctx, verdict, os.path.basename(lp), hexes)
+        os.remove(lp)
+    ctx.cov["evaluations"] += tk["records"]
+    ctx.add_part("harness_tokio_request_parser", inputs=tk["inputs"], calls=tk["records"], by_outcome=tk["by_outcome"],
+                 worker_restarts=tk["worker_restarts"], worst_peak=tk["worst_kib"], wall_s=round(tk["wall_s"], 1))
+
+    # ---- the model runs ---------------------------------------------------------------------------------------------
+    witnesses = {}
+    for fs in f_small:
+        for name, r in fs.result():
+            if name == "sup":
+                ctx.add_tlc("ParseSup: supervisor/worker protocol, all behaviours, Bug={}", r)
+                ctx.require_tlc_ok("MC_ParseSup", r)
+                ctx.require_cover("MC_ParseSup", r, SUP_ACTIONS)
+            elif name == "sup-ideal":
+                ctx.add_tlc("ParseSup: ideal parsers (ok/err only) => log is total", r)
+                ctx.require_tlc_ok("MC_ParseSup_ideal", r)
+            elif name.startswith("sup-sens:"):
+                ctx.add_tlc("sensitivity: %s must violate AllTotal" % name[9:], r)
+                if r.violation != "invariant" or r.violated_name != "AllTotal":
+                    raise vlib.ToolError("model lost sensitivity: %s no longer violates AllTotal" % name)
+            elif name.startswith("sup-bug:"):
+                ctx.add_tlc("sensitivity: supervisor bug %s must be caught" % name[8:], r)
+                if r.violation is None:
+                    raise vlib.ToolError("model lost sensitivity: supervisor bug %s is no longer caught" % name[8:])
+            elif name.startswith("dev:"):
+                d = name[4:]
+                ctx.add_tlc("sensitivity: Dev={%s} must violate ParseTotal inside the families" % d, r)
+                w = [x for x in r.prints if isinstance(x, dict) and x.get("fam") == "witness"]
+                if r.violation != "invariant" or r.violated_name != "ParseTotalW" or not w:
+                    raise vlib.ToolError("model lost sensitivity: Dev={%s} no longer violates ParseTotal (families vacuous for it)" % d)
+                witnesses[d] = w[0]
+    r = f_mc.result()
+    ctx.add_tlc("Mutants: families + Parse action, Dev={} (ParseTotal)", r)
+    ctx.require_tlc_ok("MC_Mutants", r)
+    ctx.require_cover("MC_Mutants", r, MUT_ACTIONS)
+
+    # the witnesses TLC found for the deviations, replayed on the real code and judged like every other call
+    w_cases = os.path.join(wd, "cases-witness.ndjson")
+    vlib.write_lines(w_cases, [{"k": "in", "p": w["p"], "fam": "witness-" + d, "len": w["len"], "b": w["b"]} for d, w in sorted(witnesses.items())])
+    ws = _run_harness(pf, w_cases, os.path.join(wd, "log.witness"), 1, ["--rlimit-mb", "1024", "--stack-kib", "2048", "--watchdog-ms", "5000"])
+    wl = os.path.join(wd, "log.witness.0.ndjson")
+    r, verdict = _validate_log(wl, "wit")
+    ctx.add_tlc("trace validation of the deviation witnesses replayed on the real code (%d records)" % ws["records"], r)
+    hexes.update({(x["id"], x["d"]): x.get("hex") for x in ws["not_total"]})
+    if verdict is not None:
+        _route_rejected(ctx, verdict, os.path.basename(wl), hexes)
     wit = {}
-    for lp in logs:
-        with open(lp) as f:
-            for line in f:
-                if '"witness-' in line:
-                    rec = json.loads(line)
-                    wit.setdefault(rec["fam"][8:], []).append("%s/%s:%s" % (rec["p"], rec["d"], rec["o"]))
+    with open(wl) as f:
+        for line in f:
+            rec = json.loads(line)
+            wit.setdefault(rec["fam"][8:], []).append("%s/%s:%s" % (rec["p"], rec["d"], rec["o"]))
     ctx.add_part("deviation_witnesses_on_real_code", **{d: sorted(v) for d, v in wit.items()})
+    validated += ws["records"]
+    ctx.cov["evaluations"] += ws["records"]
+    ctx.cov["traces_validated_against_impl"] = validated
+    os.remove(wl)
+    os.remove(w_cases)
 
-    # ---- 5. self-test of the binding: corrupted logs must be rejected ---------------------------------------------
-    if first_log:
-        recs = []
-        with open(first_log) as f:
-            for x in f:
-                r0 = json.loads(x)
-                if r0["o"] in ("ok", "err") and r0["kib"] <= r0["len"] + 65536:
-                    # a clean base log: total records, renumbered as one shard served by one worker
-                    r0.update(n=len(recs), g=0, rt=0)
-                    recs.append(r0)
-                    if len(recs) == 400:
-                        break
-        if len(recs) < 400:
-            raise vlib.ToolError("not enough records for the binding self-test")
-        tests = []
-        a = [dict(x) for x in recs]
-        a[37]["o"] = "panic"; a[37]["cls"] = "index_oob"; a[37]["file"] = "humphrey/src/http/request.rs"
-        tests.append(("flipped-outcome", a, lambda v: v["nrejected"] == 1 and v["rejected"][0]["idx"] == 38 and not v["rejected"][0]["expl"]))
-        b = [dict(x) for x in recs]
-        b[120]["kib"] = b[120]["len"] + 65536 + 1
-        tests.append(("inflated-peak", b, lambda v: v["nrejected"] == 1 and v["rejected"][0]["idx"] == 121))
-        c = [dict(x) for x in recs]
-        del c[200]
-        tests.append(("dropped-record", c, lambda v: v["nrejected"] == 0 and len(v["shape"]) >= 1 and v["shape"][0]["idx"] == 201))
-        d = [dict(x) for x in recs]
-        d[10]["o"] = "abort"; d[10]["src"] = "sup"       # a death without a restart after it
-        tests.append(("death-without-restart", d, lambda v: v["nrejected"] == 1 and len(v["shape"]) >= 1))
-        for name, rr, ok in tests:
-            pth = os.path.join(wd, "selftest-%s.ndjson" % name)
-            vlib.write_lines(pth, rr)
-            r, verdict = _validate_log(pth, "st")
-            ctx.add_tlc("self-test: corrupted log (%s) must be rejected" % name, r)
-            if verdict is None or not ok(verdict):
-                raise vlib.ToolError("binding self-test failed: corrupted log %s was not rejected as expected: %s" % (name, json.dumps(verdict)[:600]))
-            os.remove(pth)
-        ctx.add_part("self_test", corrupted_logs_rejected=[t[0] for t in tests])
-
-    # ---- 5b. self-test of the observation mechanism: a stand-in parser misbehaves in every way on demand -------------
-    seq = "opoaesomoMohoe"     # ok panic ok abort err stack ok oom ok over-bound ok hang ok err
-    st_cases = os.path.join(wd, "selftest-cases.ndjson")
-    vlib.write_lines(st_cases, [{"k": "in", "p": "selftest", "fam": "selftest", "b": [ord(c), 1, 2]} for c in seq])
-    st = _run_harness(pf, st_cases, os.path.join(wd, "selftest-log"), 1, ["--watchdog-ms", "300"])
+    # ---- 5. self-tests ---------------------------------------------------------------------------------------------------
+    for name, pth, ok, f in st_futs:
+        r, verdict = f.result()
+        ctx.add_tlc("self-test: corrupted log (%s) must be rejected" % name, r)
+        if verdict is None or not ok(verdict):
+            raise vlib.ToolError("binding self-test failed: corrupted log %s was not rejected as expected: %s" % (name, json.dumps(verdict)[:600]))
+        os.remove(pth)
+    ctx.add_part("self_test", corrupted_logs_rejected=[t[0] for t in tests])
+    st, r, verdict = f_mech.result()
     want = {"ok": 7, "err": 2, "panic": 1, "abort": 1, "stack": 1, "oom": 1, "timeout": 1}
     if st["by_outcome"] != want:
         raise vlib.ToolError("mechanism self-test: observed %s, expected %s" % (st["by_outcome"], want))
-    stl = os.path.join(wd, "selftest-log.0.ndjson")
-    r, verdict = _validate_log(stl, "st2")
     ctx.add_tlc("self-test: stand-in parser that panics/aborts/overflows/exhausts/hangs: log shape must hold, 6 records rejected", r)
     got_ids = sorted(x["rec"]["id"] for x in verdict["rejected"]) if verdict else []
     if verdict is None or verdict["shape"] or got_ids != [1, 3, 5, 7, 9, 11] or any(x["expl"] for x in verdict["rejected"]):
         raise vlib.ToolError("mechanism self-test: TLC verdict unexpected: %s" % json.dumps(verdict)[:800])
     ctx.add_part("mechanism_self_test", outcomes=st["by_outcome"], rejected_ids=got_ids, worker_restarts=st["worker_restarts"])
-    os.remove(stl)
-    os.remove(st_cases)
 
     for lp in logs:
         os.remove(lp)
@@ -314,7 +356,7 @@ def run(tier, replay):
         "watchdog 5 s (retried once with 20 s before it counts), parser thread stack 2 MiB (Rust's default for spawned threads, which is where handlers run)",
         "json / conf take a complete &str: no byte-by-byte delivery exists for them; invalid UTF-8 reaches them only as the lossy conversion",
         "wsmsg runs over a socketpair wrapped as TcpStream; its byte-by-byte delivery is best effort (exact one-byte reads are exercised on the frame decoder)",
-        "the tokio copy of the request parser (same source text, async reads) is not executed by this harness",
+        "the tokio copy of the request parser is run by the harness-tokio worker on a current-thread runtime over an always-ready scripted AsyncRead",
         "include directives in configuration inputs name files that do not exist (worker cwd is an empty directory)",
     ]
     return ctx.finish()
